@@ -264,15 +264,18 @@ class Ctx:
             n += 1
             if n > max_violations:
                 continue
-            rdir = ROOT / "replays" / self.pid / str(n)
+            # runs against another tree (VERIF_REPO: seeded changes, older commits) keep their replays and their
+            # evidence in their own scratch directory: evidence/ and replays/ only ever describe /repo itself
+            rdir = (ROOT / "replays" if str(REPO) == "/repo" else self.work / "replays") / self.pid / str(n)
+            rshow = f"replays/{self.pid}/{n}" if str(REPO) == "/repo" else str(rdir)
             if rdir.exists():
                 shutil.rmtree(rdir)
             rdir.mkdir(parents=True)
             (rdir / "bad.json").write_text(json.dumps(b, indent=1))
             if replay_writer:
                 replay_writer(rdir, b)
-            (rdir / "cmd").write_text(f"./check {self.pid} --replay replays/{self.pid}/{n}\n")
-            print(f"VIOLATION property={self.pid} replay=replays/{self.pid}/{n}")
+            (rdir / "cmd").write_text(f"./check {self.pid} --replay {rshow}\n")
+            print(f"VIOLATION property={self.pid} replay={rshow}")
             print("  signature:", sk[:400])
             if b.get("what"):
                 print("  what:", str(b["what"])[:400])
@@ -293,7 +296,7 @@ class Ctx:
             "wall_s": round(time.time() - self.t0, 2),
             "violations": violations,
         }
-        d = ROOT / "evidence"
+        d = ROOT / "evidence" if str(REPO) == "/repo" else self.work
         d.mkdir(exist_ok=True)
         (d / f"{self.pid}.json").write_text(json.dumps(ev, indent=1, sort_keys=True) + "\n")
 
